@@ -12,6 +12,7 @@ LEVEL = 'exploration'
 SHARDS = {'quick': 8, 'thorough': 16}
 TIMEOUT = {'quick': 300, 'thorough': 3000}
 N_HIST = {'quick': 800, 'thorough': 60000}
+N_BIG = {'quick': 8, 'thorough': 300}           # scale regime: 140-520 classes; 70-200 class components on one class
 RULE = ('cases: seeded histories of 20-50 ops over a hierarchy built per case: Agent, Environment, SpaceWorld, DiscreteWorld, GridWorld, '
         'LineWorld plus 3-7 fresh subclasses (siblings, 2-3 levels deep, subclasses of environments/worlds, classes created in the middle '
         'of the history); ops: add/remove class component on any class (incl. duplicate attach and absent detach), default-tag change on '
@@ -25,7 +26,7 @@ ASSUMPTIONS = ['Agent/Environment/world classes are process-global: every histor
 FLOORS = {'quick': {'class_observations': 100000, 'class_attach': 2000, 'class_detach': 400, 'rejected_duplicate_attach': 200,
                     'rejected_absent_detach': 500, 'default_tag_changes': 2000, 'instances_default_tag': 2000,
                     'instances_default_tag_nonzero': 380, 'instances_explicit_tag': 800, 'instances_explicit_zero_vs_default': 100,
-                    'environment_instances': 500, 'instances_added_to_environment': 1000, 'ops_on_library_classes': 2000, 'mid_history_classes': 500, 'same_named_classes': 300,
+                    'environment_instances': 500, 'instances_added_to_environment': 1000, 'ops_on_library_classes': 2000, 'mid_history_classes': 500, 'same_named_classes': 300, 'big_many_classes': 2, 'big_many_class_components': 2,
                     'reach:Core._MetaAgent.add_class_component': 3000, 'reach:Core.Agent.__init__': 4600},
           'thorough': {'class_observations': 5000000}}
 EXHAUSTIVE = {}
@@ -218,14 +219,79 @@ def case_history(ctx, case):
         ctx.sample({'kind': 'history', 'i': case['i'], 'trace': trace[:16]})
 
 
+
+def case_big(ctx, case):
+    """Scale regime: (a) hundreds of agent classes used between two looks at one class; (b) one class carrying 70-200 class components
+    that are all detached again, followed by the ordinary duplicate / absent checks."""
+    rng = ctx.rng('big', case['i'])
+    core, envs, T = fixtures()
+    model = core.Model()
+    if case['i'] % 2 == 0:
+        Sheep = type(f'BigSheep{case["i"]}', (core.Agent,), {})
+        Lamb = type(f'BigLamb{case["i"]}', (Sheep,), {})
+        Sheep.tag = 5
+        comp = T[0](Sheep, model)
+        Sheep.add_class_component(comp)
+        others = []
+        for j in range(rng.choice([140, 300, 520])):
+            K = type(f'Species{case["i"]}_{j}', (rng.choice([core.Agent, Sheep] + others[-3:]),), {})
+            others.append(K)
+            if j % 7 == 0:
+                K.tag = j
+            if j % 11 == 0:
+                K.add_class_component(T[1](K, model))
+            inst = K(f'x{j}', model)
+            want = j if j % 7 == 0 else 0
+            check(inst.tag == want and K.tag == want, f'class {K.__name__}: default tag {K.tag}, instance tag {inst.tag}, expected {want}')
+            check((T[1] in K) == (j % 11 == 0) and T[0] not in K, f'class {K.__name__}: class components leaked or lost')
+        ctx.ev()
+        ctx.count('big_many_classes')
+        check(Sheep.tag == 5 and Sheep('s', model).tag == 5 and Sheep[T[0]] is comp and len(Sheep) == 1,
+              f'after {len(others)} other agent classes were used, Sheep lost its default tag / class component',
+              tag=Sheep.tag, instance_tag=Sheep('s2', model).tag, has=T[0] in Sheep)
+        check(Lamb.tag == 0 and len(Lamb) == 0, 'the child class shows its parent\'s state')
+        for j in (0, 7, 11, 77):
+            if j < len(others):
+                K = others[j]
+                check(K.tag == (j if j % 7 == 0 else 0) and (T[1] in K) == (j % 11 == 0), f'class {K.__name__} lost its own state')
+    else:
+        K = type(f'Loaded{case["i"]}', (core.Agent,), {})
+        Sib = type(f'LoadedSibling{case["i"]}', (core.Agent,), {})
+        n = rng.choice([70, 130, 200])
+        many = [type(f'CC{case["i"]}_{j}', (core.Component,), {'__slots__': ()}) for j in range(n)]
+        comps = {}
+        for t in many:
+            comps[t] = t(K, model)
+            K.add_class_component(comps[t])
+        check(len(K) == n and all(K[t] is comps[t] for t in many) and len(Sib) == 0, f'class with {n} class components')
+        for t in rng.sample(many, n):                 # torn down completely, no attach in between
+            K.remove_class_component(t)
+        check(len(K) == 0 and not any(t in K for t in many), 'detached class components are still visible')
+        a, b = many[0], many[1]
+        ca = a(K, model)
+        K.add_class_component(ca)
+        expect_raises(ValueError, 'duplicate class component after a long run of detaches', K.add_class_component, a(K, model), exact=True)
+        check(K[a] is ca and len(K) == 1 and a in K and K.has_class_component(a), 'the re-attached class component is not visible')
+        expect_raises(core.ComponentNotFoundError, 'detach of an absent class component after a long run of detaches', K.remove_class_component, b,
+                      exact=True)
+        K.add_class_component(b(K, model))
+        check(len(K) == 2 and b in K and len(Sib) == 0, 'attach after the tear-down went wrong')
+        ctx.ev()
+        ctx.count('big_many_class_components')
+    ctx.distinct(('big', case['i']))
+
+
 def run_case(ctx, case):
-    case_history(ctx, case)
+    (case_big if case.get('kind') == 'big' else case_history)(ctx, case)
 
 
 def run(ctx):
     for i in range(N_HIST[ctx.tier]):
         if ctx.mine(i) and not ctx.full():
             ctx.run_case({'kind': 'hist', 'i': i}, run_case)
+    for i in range(N_BIG[ctx.tier]):
+        if ctx.mine(i) and not ctx.full():
+            ctx.run_case({'kind': 'big', 'i': i}, run_case)
 
 
 def replay(ctx, case):
